@@ -826,8 +826,23 @@ impl<'a> Tr<'a> {
             Expr::Group(g) => self.tail(&g.expr, st),
             Expr::Block(bl) => self.block(&bl.block, st),
             Expr::If(i) => {
-                if let Expr::Let(_) = strip(&i.cond) {
-                    return Err("if let in expression mode".into());
+                if let Expr::Let(l) = strip(&i.cond) {
+                    // if let PAT = e { A } else { B }
+                    let mut b = vec![];
+                    let sc = self.expr(&l.expr, &mut b)?;
+                    let pty = self.payload_ty(&l.expr);
+                    let (p, vars) = self.pattern(&l.pat)?;
+                    let n0 = self.locals.len();
+                    for v in vars {
+                        self.locals.push((v, pty.clone(), false));
+                    }
+                    let t = self.block(&i.then_branch, st);
+                    self.locals.truncate(n0);
+                    let el = match &i.else_branch {
+                        Some((_, e)) => self.tail(e, st)?,
+                        None => return Err("`if let` without `else` in value position".into()),
+                    };
+                    return Ok(wrap(&b, &format!("match {} with {} => {} | _ => {} end", sc, p, t?, el)));
                 }
                 let mut b = vec![];
                 let c = self.expr(&i.cond, &mut b)?;
@@ -843,18 +858,47 @@ impl<'a> Tr<'a> {
                 let s = self.expr(&m.expr, &mut b)?;
                 let pty = self.payload_ty(&m.expr);
                 let mut arms = vec![];
-                for a in &m.arms {
-                    if a.guard.is_some() {
-                        return Err("match guard in expression mode".into());
-                    }
+                for (k, a) in m.arms.iter().enumerate() {
                     let (p, vars) = self.pattern(&a.pat)?;
                     let n0 = self.locals.len();
                     for v in vars {
                         self.locals.push((v, pty.clone(), false));
                     }
                     let body = self.tail(&a.body, st);
+                    let guard = match &a.guard {
+                        None => None,
+                        Some((_, g)) => {
+                            let mut gb = vec![];
+                            let gc = self.expr_h(g, &Ty::Word, &mut gb);
+                            match gc {
+                                Ok(c) if gb.is_empty() => Some(Ok(c)),
+                                Ok(_) => Some(Err("match guard with effects".to_string())),
+                                Err(e) => Some(Err(e)),
+                            }
+                        }
+                    };
                     self.locals.truncate(n0);
-                    arms.push(format!("| {} => {}", p, body?));
+                    let body = body?;
+                    match guard {
+                        None => arms.push(format!("| {} => {}", p, body)),
+                        Some(g) => {
+                            // a guarded arm: when the guard fails the value falls to the later arms; supported when
+                            // the only later arm is a `_` catch-all (its body is duplicated)
+                            // (Rust's exhaustiveness check makes a single unguarded later arm a catch-all)
+                            let later = &m.arms[k + 1..];
+                            if later.len() != 1 || later[0].guard.is_some() {
+                                return Err("match guard followed by more than one catch-all arm".into());
+                            }
+                            let (_, lv) = self.pattern(&later[0].pat)?;
+                            if !lv.is_empty() {
+                                return Err("match guard followed by an arm with binders".into());
+                            }
+                            let fall = self.tail(&later[0].body, st)?;
+                            arms.push(format!("| {} => if {} then {} else {}", p, g?, body, fall));
+                            arms.push(format!("| _ => {}", fall));
+                            return Ok(wrap(&b, &format!("match {} with {} end", s, arms.join(" "))));
+                        }
+                    }
                 }
                 Ok(wrap(&b, &format!("match {} with {} end", s, arms.join(" "))))
             }
@@ -1607,6 +1651,12 @@ impl<'ast> Visit<'ast> for NeedsFlow {
     fn visit_expr_break(&mut self, _: &'ast syn::ExprBreak) {
         self.yes = true;
     }
+    fn visit_expr_return(&mut self, _: &'ast syn::ExprReturn) {
+        self.yes = true; // early returns: statement lists with control flow
+    }
+    fn visit_expr_closure(&mut self, _: &'ast syn::ExprClosure) {
+        // a `return` inside a closure belongs to the closure
+    }
     fn visit_expr_continue(&mut self, _: &'ast syn::ExprContinue) {
         self.yes = true;
     }
@@ -1885,15 +1935,74 @@ pub fn translate_all(repo: &Path, report: &mut Report) -> String {
                 report.skipped.push((rust, "function not found in the source".into()));
             }
         }
+        let excluded: Vec<String> = std::env::var("RS2V_EXCLUDE").unwrap_or_default().split(',').map(|x| x.trim().to_string()).filter(|x| !x.is_empty()).collect();
         let mut done: BTreeMap<(Option<String>, String), String> = BTreeMap::new();
-        let mut pending: Vec<&FnInfo> = wanted.clone();
+        // helpers: functions of this file that are not in FUNCS but may be called by those that are
+        let helpers: Vec<&FnInfo> = ctx.fns.iter().filter(|f| !wanted.iter().any(|w| w.key == f.key) && helper_candidate(f)).collect();
+        let mut helper_defs: BTreeMap<(Option<String>, String), String> = BTreeMap::new();
+        // first the helpers (several passes), kept aside; they are emitted only if used
+        {
+            let mut pend: Vec<&FnInfo> = helpers.clone();
+            let mut hdone: BTreeMap<(Option<String>, String), String> = BTreeMap::new();
+            loop {
+                let mut progress = false;
+                let mut next = vec![];
+                for f in pend {
+                    if excluded.contains(&f.rust) {
+                        continue;
+                    }
+                    match translate_fn(&ctx, &hdone, &all_done, f) {
+                        Ok(def) => {
+                            hdone.insert(f.key.clone(), f.coq.clone());
+                            helper_defs.insert(f.key.clone(), def);
+                            progress = true;
+                        }
+                        Err(_) => next.push(f),
+                    }
+                }
+                pend = next;
+                if !progress || pend.is_empty() {
+                    break;
+                }
+            }
+        }
+        let mut pending: Vec<&FnInfo> = wanted.iter().filter(|f| !excluded.contains(&f.rust)).cloned().collect();
+        for f in wanted.iter().filter(|f| excluded.contains(&f.rust)) {
+            report.skipped.push((f.rust.clone(), "the translated term did not type-check in Coq (excluded by the runner)".into()));
+        }
         let mut last_err: BTreeMap<String, String> = BTreeMap::new();
         loop {
             let mut progress = false;
             let mut next = vec![];
             for f in pending {
-                match translate_fn(&ctx, &done, &all_done, f) {
+                // helpers this function mentions are emitted first (with their own helper callees)
+                let mut with_helpers = done.clone();
+                for (k, _) in &helper_defs {
+                    let h = ctx.fns.iter().find(|x| &x.key == k).unwrap();
+                    with_helpers.entry(k.clone()).or_insert(h.coq.clone());
+                }
+                match translate_fn(&ctx, &with_helpers, &all_done, f) {
                     Ok(def) => {
+                        // emit the helpers whose Coq name occurs in the definition (transitively), once
+                        let mut stack = vec![def.clone()];
+                        let mut order: Vec<(Option<String>, String)> = vec![];
+                        while let Some(d) = stack.pop() {
+                            for (k, hd) in &helper_defs {
+                                let h = ctx.fns.iter().find(|x| &x.key == k).unwrap();
+                                if !done.contains_key(k) && !order.contains(k) && mentions(&d, &h.coq) {
+                                    order.push(k.clone());
+                                    stack.push(hd.clone());
+                                }
+                            }
+                        }
+                        // dependencies first: emit in reverse discovery order, repeating until all are out
+                        for k in order.iter().rev() {
+                            let h = ctx.fns.iter().find(|x| &x.key == k).unwrap();
+                            out.push_str(&helper_defs[k]);
+                            done.insert(k.clone(), h.coq.clone());
+                            all_done.insert((ctx.stem.clone(), k.0.clone(), k.1.clone()), (h.coq.clone(), h.ret.clone()));
+                            report.translated.push((h.rust.clone(), h.coq.clone()));
+                        }
                         out.push_str(&def);
                         done.insert(f.key.clone(), f.coq.clone());
                         all_done.insert((ctx.stem.clone(), f.key.0.clone(), f.key.1.clone()), (f.coq.clone(), f.ret.clone()));
@@ -1916,6 +2025,27 @@ pub fn translate_all(repo: &Path, report: &mut Report) -> String {
         }
     }
     out
+}
+
+fn helper_candidate(f: &FnInfo) -> bool {
+    // test functions and trait plumbing are never helpers
+    !f.rust.contains("::tests::") && !f.key.1.starts_with("test_")
+}
+
+/// does the Coq text [d] mention the identifier [name] (as a whole word)?
+fn mentions(d: &str, name: &str) -> bool {
+    let mut from = 0;
+    while let Some(i) = d[from..].find(name) {
+        let a = from + i;
+        let b = a + name.len();
+        let before = d[..a].chars().last().map(|c| c.is_alphanumeric() || c == '_').unwrap_or(false);
+        let after = d[b..].chars().next().map(|c| c.is_alphanumeric() || c == '_').unwrap_or(false);
+        if !before && !after {
+            return true;
+        }
+        from = b;
+    }
+    false
 }
 
 fn translate_fn(
